@@ -46,19 +46,24 @@ Problems(req) ==
       \cup (IF req.wsversion \in {"wrong", "other"} THEN {426} ELSE {})
       \cup (IF req.key \in {"absent", "len23", "len25", "empty"} THEN {400} ELSE {})
 
+\* a Sec-WebSocket-Protocol value that breaks the token-list grammar before any acceptable token:
+\* refused (RFC 6455 4.2.2 /1) by an upgrader that looks at the header, i.e. has a selector
+ProtoProblem(req, cfg) == req.protoBad # "" /\ cfg.hasSelector
+
 KeyOpen(req) == req.key = "nonb64"
 
 \* must the upgrade succeed / fail?  ("open": either)
 ServerVerdict(req, cfg) ==
     IF ~VersionParsed(req.version) THEN "fail"
     ELSE IF Problems(req) # {} THEN "fail"
+    ELSE IF ProtoProblem(req, cfg) THEN "fail"
     ELSE IF CallbackFires(req, cfg) THEN "fail"
     ELSE IF KeyOpen(req) THEN "open"
     ELSE "ok"
 
 \* statuses the error response may carry
 AllowedStatus(req, cfg) ==
-    Problems(req) \cup
+    Problems(req) \cup (IF ProtoProblem(req, cfg) THEN {400} ELSE {}) \cup
       (IF cfg.reject # "none" THEN {IF cfg.rejectStatus = 0 THEN 500 ELSE cfg.rejectStatus} ELSE {})
       \cup (IF KeyOpen(req) THEN {400} ELSE {})
 
